@@ -36,6 +36,7 @@ ASSUMPTIONS = [
 SHARDS = {"quick": 16, "thorough": 16}
 MIN_REACH = {
     "crops_named_by_a_relative_parent_dir": {"quick": 6, "thorough": 60},
+    "array_scripts_for_a_dozen_and_more_batches": {"quick": 3, "thorough": 4},
     "scripts_for_a_project_directory_with_pattern_characters": {"quick": 5, "thorough": 40},
     "scripts_generated": {"quick": 40, "thorough": 400},
     "script_executions": {"quick": 35, "thorough": 400},
@@ -84,6 +85,11 @@ def cases(ctx):
                  "rel_parent": rng.random() < 0.3}
             yield c
             idx += 1
+    # crops of a dozen and more batches (two-digit task indices and array ranges)
+    for k, (sch, state) in enumerate([("pbs", "none"), ("slurm", "some"), ("sge", "none"), ("pbs", "some")][:ctx.pick(3, 4)]):
+        yield {"scheduler": sch, "mode": "array", "state": state, "B": 12 + k, "bs": 1, "ids_kind": "none", "idx": idx,
+               "oseed": 4000 + k, "via_method": bool(k % 2), "rel_parent": False, "dozen": True}
+        idx += 1
     for i in range(ctx.pick(6, 50)):
         yield {"cli": True, "B": rng.randint(1, 6), "bs": rng.choice([1, 2]), "state": rng.choice(["none", "some", "all_but_one"]),
                "num_workers": rng.choice([None, None, 2]), "idx": 10000 + i, "oseed": rng.randint(0, 10 ** 9),
@@ -305,6 +311,8 @@ def run_case(ctx, case):
     finally:
         os.chdir(cwd0)
     ctx.count("scripts_generated")
+    if case.get("dozen"):
+        ctx.count("array_scripts_for_a_dozen_and_more_batches")
     if case["mode"] == "single" and ids is None and len(intended) >= 2 and case["idx"] % 4 != 3:
         # between generating the script and running it, one of the missing batches gets grown some other way (the job is
         # resubmitted after a partial run, a colleague grows one by hand): a single-mode script for "whatever is
